@@ -4,7 +4,7 @@ From Coq Require Import ZArith QArith List Bool.
 From Centro Require Import Base.VecC13 Proofs.VecC13Proofs Model.MeasureC13 Proofs.MeasureC13Proofs Model.EllipseCoordsC13 Proofs.EllipseC13Proofs
   Proofs.PadC13Proofs Proofs.TranslateC13Proofs Proofs.EllipseRowsC13.
 From Centro Require Model.Circle Model.CircleVec Model.Feret Proofs.CircleVecProofs Proofs.CircleVecStep Model.MecFeretC13 Proofs.MecFeretC13Proofs
-  Spec.HullSpec Spec.MecSpec Spec.FeretSpec Spec.FeretBrute Proofs.OwnRowsC13 Proofs.EndToEndC13 Proofs.MecVecOwnerC13 Proofs.HullBoundC13.
+  Spec.HullSpec Spec.MecSpec Spec.FeretSpec Spec.FeretBrute Proofs.OwnRowsC13 Proofs.PolygonDiscC13 Proofs.EndToEndC13 Proofs.MecVecOwnerC13 Proofs.HullBoundC13.
 From Centro Require Proofs.HullGuard Model.Hull Proofs.HullBatch Model.HullAreaC13 Proofs.HullAreaC13Proofs Model.MedianC18 Spec.SpecC18 Proofs.MedianC13Proofs Model.IndexesC18 Proofs.IndexesC18Proofs.
 Import ListNotations.
 Open Scope Z_scope.
@@ -325,28 +325,53 @@ Theorem C13_feret_request_position : forall ijv idx idx' r r',
 Proof. exact OwnRowsC13.feret_request_position. Qed.
 Print Assumptions C13_feret_request_position.
 
-(* ---- end to end (C02 x C14): per requested label, with S = the label's own pixels and V = own_hull:
-   V is a C02 hull polygon of S; the circle returned is THE minimum enclosing circle of V and no circle
-   enclosing S is smaller; the Feret values are the brute-force maximum / minimum width of V.
-   _partial: "a disc (strip) that contains the vertices of V contains every point on the inner side of all
-   edges of V" (polygon_in_disc / polygon_in_strip) is not proved, so "encloses S" and "max / min width of S"
-   are stated for V, the polygon whose vertices are exactly the extreme points of S (C02_hull_exactly_extreme). *)
-Theorem C13_mec_end_to_end_partial : forall ijv indexes r,
+(* ---- end to end (C02 x C14 x polygon_in_disc), Full: for every ijv list with non-negative rows, every
+   repeat-free request list and every position, with S = the requested label's own pixels:
+   the model of minimum_enclosing_circle returns CEmpty iff S is empty and otherwise THE minimum enclosing
+   circle of S; the model of feret_diameter returns the largest squared distance between two pixels of S. ---- *)
+
+(* a disc that contains the vertices of a C02 hull polygon of S contains S *)
+Theorem C13_polygon_in_disc : forall S V c1 c2 R,
+  HullSpec.HullSpec S V -> MecSpec.Encloses V c1 c2 R -> MecSpec.Encloses S c1 c2 R.
+Proof. exact PolygonDiscC13.polygon_in_disc. Qed.
+Print Assumptions C13_polygon_in_disc.
+
+(* on S, a linear functional with integer coefficients is at most its largest value at a vertex *)
+Theorem C13_polygon_functional_max : forall S V (p q : Z),
+  HullSpec.HullSpec S V -> V <> [] ->
+  exists v, In v V /\ forall s, In s S -> PolygonDiscC13.phi p q s <= PolygonDiscC13.phi p q v.
+Proof. exact PolygonDiscC13.polygon_functional_max. Qed.
+Print Assumptions C13_polygon_functional_max.
+
+Theorem C13_mec_end_to_end : forall ijv indexes r,
   NoDup indexes -> (r < length indexes)%nat -> OwnRowsC13.nonneg_rows ijv ->
-  let l := nth r indexes 0 in
-  let S := HullSpec.pts_of ijv l in
-  let V := OwnRowsC13.own_hull ijv l in
+  let S := HullSpec.pts_of ijv (nth r indexes 0) in
   let res := nth r (MecFeretC13.mec_rows (fst (Hull.convex_hull_ijv ijv indexes))) (Circle.chrystal []) in
-  HullSpec.HullSpec S V /\
   (S = [] -> res = Circle.CEmpty) /\
   (S <> [] -> exists ny nx d rn,
       res = Circle.CCircle ny nx d rn /\
-      MecSpec.MEC V (inject_Z ny / inject_Z d) (inject_Z nx / inject_Z d) (inject_Z rn / inject_Z (d * d)) /\
-      forall ex ey rho, MecSpec.Encloses S ex ey rho -> (inject_Z rn / inject_Z (d * d) <= rho)%Q).
-Proof. exact EndToEndC13.mec_end_to_end. Qed.
-Print Assumptions C13_mec_end_to_end_partial.
+      MecSpec.MEC S (inject_Z ny / inject_Z d) (inject_Z nx / inject_Z d) (inject_Z rn / inject_Z (d * d))).
+Proof. exact EndToEndC13.mec_end_to_end_full. Qed.
+Print Assumptions C13_mec_end_to_end.
 
-Theorem C13_feret_end_to_end_partial : forall ijv indexes r,
+Theorem C13_max_d2_hull : forall S V, HullSpec.HullSpec S V -> FeretSpec.max_d2 V = FeretSpec.max_d2 S.
+Proof. exact EndToEndC13.max_d2_hull. Qed.
+Print Assumptions C13_max_d2_hull.
+
+Theorem C13_feret_max_end_to_end : forall ijv indexes r,
+  NoDup indexes -> (r < length indexes)%nat -> OwnRowsC13.nonneg_rows ijv ->
+  let S := HullSpec.pts_of ijv (nth r indexes 0) in
+  exists mx mq,
+    nth r (MecFeretC13.feret_rows (fst (Hull.convex_hull_ijv ijv indexes))) (Feret.sweep []) = Some (mx, mq) /\
+    mx = FeretSpec.max_d2 S.
+Proof. exact EndToEndC13.feret_end_to_end_max. Qed.
+Print Assumptions C13_feret_max_end_to_end.
+
+(* the minimum Feret diameter: the sweep returns the brute-force minimum over the edges of V of the largest
+   vertex distance (C14 calipers_eq_bruteforce); by C13_polygon_functional_max the largest distance of a
+   vertex from an edge line is the largest distance of a pixel of S from it; that the minimum over edge
+   directions is the minimum over ALL directions is C14's feret_min theorems (checked per run). *)
+Theorem C13_feret_end_to_end : forall ijv indexes r,
   NoDup indexes -> (r < length indexes)%nat -> OwnRowsC13.nonneg_rows ijv ->
   let l := nth r indexes 0 in
   let S := HullSpec.pts_of ijv l in
@@ -358,7 +383,7 @@ Theorem C13_feret_end_to_end_partial : forall ijv indexes r,
     ((3 <= length V)%nat ->
        exists bq, FeretBrute.bf_min V = Some bq /\ 0 < snd mq /\ 0 < snd bq /\ fst mq * snd bq = fst bq * snd mq).
 Proof. exact EndToEndC13.feret_end_to_end. Qed.
-Print Assumptions C13_feret_end_to_end_partial.
+Print Assumptions C13_feret_end_to_end.
 
 (* ---- the vectorised loop (C14's Model/CircleVec.v) ---- *)
 
